@@ -198,13 +198,13 @@ def ltv_class(timevarying_c: bool):
         def __init__(self, A, B, C, D, c1=None, c2=None):
             super().__init__(A, B, C, D, c1, c2)
 
-        fail_at = -1       # user code raising: the k-th read of A from now raises (then disarms itself)
+        vfh14_fail_at = -1       # user code raising: the k-th read of A from now raises (then disarms itself)
 
         @property
         def A(self):
-            if self.fail_at >= 0:
-                self.fail_at -= 1
-                if self.fail_at < 0:
+            if self.vfh14_fail_at >= 0:
+                self.vfh14_fail_at -= 1
+                if self.vfh14_fail_at < 0:
                     raise ArithmeticError("user system raised (injected by the harness)")
             return self._A[..., self._t, :, :]
 
@@ -302,18 +302,18 @@ def sin_class():
     class SinSys(P.module.NLS):
         def __init__(self, A, B, c, a, phi, W, R):
             super().__init__()
-            for nme, v in (("A_", A), ("B_", B), ("c_", c), ("a_", a), ("phi_", phi), ("W_", W), ("R_", R)):
+            for nme, v in (("vfh14_A", A), ("vfh14_B", B), ("vfh14_c", c), ("vfh14_a", a), ("vfh14_phi", phi), ("vfh14_W", W), ("vfh14_R", R)):
                 self.register_buffer(nme, v)
 
-        fail_at = -1       # user code raising: the k-th call of state_transition from now raises (then disarms itself)
+        vfh14_fail_at = -1       # user code raising: the k-th call of state_transition from now raises (then disarms itself)
 
         def state_transition(self, state, input, t=None):
-            if self.fail_at >= 0:
-                self.fail_at -= 1
-                if self.fail_at < 0:
+            if self.vfh14_fail_at >= 0:
+                self.vfh14_fail_at -= 1
+                if self.vfh14_fail_at < 0:
                     raise ArithmeticError("user system raised (injected by the harness)")
-            lin = state @ self.A_.mT + input @ self.B_.mT + self.c_
-            return lin + self.a_ * torch.sin(state @ self.W_.mT + input @ self.R_.mT + self.phi_ * t)
+            lin = state @ self.vfh14_A.mT + input @ self.vfh14_B.mT + self.vfh14_c
+            return lin + self.vfh14_a * torch.sin(state @ self.vfh14_W.mT + input @ self.vfh14_R.mT + self.vfh14_phi * t)
 
         def observation(self, state, input, t=None):
             return state
@@ -606,7 +606,7 @@ def refresh_from_system(case: dict, prob: dict, system) -> dict:
     bufs = dict(system.named_buffers())
     if case["sys"] == "ltvp":
         new = dict(prob)
-        new["A"], new["B"], new["c"] = (bufs[k].detach().double().numpy().copy() for k in ("tabA", "tabB", "tabc"))
+        new["A"], new["B"], new["c"] = (bufs[k].detach().double().numpy().copy() for k in ("vfh14_tabA", "vfh14_tabB", "vfh14_tabc"))
         return new
     Bn, L = case["B"], prob["L"]
     A, Bm, c1 = bufs["_A"].detach().double().numpy(), bufs["_B"].detach().double().numpy(), bufs.get("_c1")
@@ -805,12 +805,12 @@ def user_classes():
         """user stepper derived from the shipped one: stop after exactly `k` steps, whatever the losses"""
         def __init__(self, k):
             super().__init__(steps=10 ** 6)
-            self.k = k
+            self.vfh14_k = k
 
         def step(self, loss):
             self.steps = self.steps + 1
             self.last = loss
-            if self.steps >= self.k:
+            if self.steps >= self.vfh14_k:
                 self._continual = False
 
     class DuckStepper:
@@ -832,30 +832,30 @@ def user_classes():
         """user LTV whose A, B, c1 are PROPERTIES computed from the clock; the constructor receives None for all of them"""
         def __init__(self, At, Bt, ct, ns, nc):
             super().__init__(None, None, None, None, None, None)
-            self.register_buffer("tabA", At)
-            self.register_buffer("tabB", Bt)
-            self.register_buffer("tabc", ct)
-            self.ns_, self.nc_ = ns, nc
+            self.register_buffer("vfh14_tabA", At)
+            self.register_buffer("vfh14_tabB", Bt)
+            self.register_buffer("vfh14_tabc", ct)
+            self.vfh14_ns, self.vfh14_nc = ns, nc
 
         @property
         def A(self):
-            return self.tabA[..., self._t, :, :]
+            return self.vfh14_tabA[..., self._t, :, :]
 
         @property
         def B(self):
-            return self.tabB[..., self._t, :, :]
+            return self.vfh14_tabB[..., self._t, :, :]
 
         @property
         def C(self):
-            return torch.eye(self.ns_, dtype=self.tabA.dtype).expand(self.tabA.shape[0], -1, -1)
+            return torch.eye(self.vfh14_ns, dtype=self.vfh14_tabA.dtype).expand(self.vfh14_tabA.shape[0], -1, -1)
 
         @property
         def D(self):
-            return torch.zeros(self.tabA.shape[0], self.ns_, self.nc_, dtype=self.tabA.dtype)
+            return torch.zeros(self.vfh14_tabA.shape[0], self.vfh14_ns, self.vfh14_nc, dtype=self.vfh14_tabA.dtype)
 
         @property
         def c1(self):
-            return self.tabc[..., self._t, :]
+            return self.vfh14_tabc[..., self._t, :]
 
     class EchoSys(P.module.NLS):
         """callbacks that RETURN THEIR ARGUMENT: x+ = x (the very tensor), y = x"""
@@ -869,10 +869,10 @@ def user_classes():
         """callbacks that return a VIEW of an argument: x+ = u[..., :ns], y = x[..., :1]"""
         def __init__(self, ns):
             super().__init__()
-            self.ns_ = ns
+            self.vfh14_ns = ns
 
         def state_transition(self, state, input, t=None):
-            return input[..., :self.ns_]
+            return input[..., :self.vfh14_ns]
 
         def observation(self, state, input, t=None):
             return state[..., :1]
